@@ -40,6 +40,8 @@ def spectrum(family, n, kappa, lmax=1.0):
 def householder_q(vs, n):
     """Q (.., n, n) = H_1 ... H_r for reflector vectors vs (.., r, n); zero vectors are skipped."""
     vs = torch.as_tensor(vs, dtype=torch.float64)
+    if vs.numel() == 0:
+        vs = vs.reshape(*vs.shape[: max(0, vs.dim() - 2)], 0, n) if vs.dim() >= 2 else vs.reshape(0, n)
     batch = vs.shape[:-2]
     Q = torch.eye(n, dtype=torch.float64).expand(*batch, n, n).clone()
     for i in range(vs.shape[-2]):
@@ -67,7 +69,8 @@ def build(spec):
             w = w.clone()
             w[rank:] = 0.0
     w = w.expand(*batch, n).clone()
-    Q = householder_q(spec["vs"], n)
+    vs = torch.as_tensor(spec["vs"], dtype=torch.float64).reshape(*batch, -1, n) if n > 0 else torch.zeros(*batch, 0, 0)
+    Q = householder_q(vs, n)
     A = (Q * w.unsqueeze(-2)) @ Q.transpose(-1, -2)
     A = 0.5 * (A + A.transpose(-1, -2))
     return A, w, Q
@@ -95,6 +98,8 @@ def specs(draw, max_n=12, min_n=1, batches=((), (), (2,), (1,), (2, 1), (3,)), k
         return [nest(fl[i * step : (i + 1) * step], shape[1:]) for i in range(shape[0])]
 
     vs = nest(flat, list(batch) + [r, n]) if r > 0 and n > 0 else torch.zeros(*batch, 0, n).tolist()
+    if r == 0:
+        vs = []
     spec = {"n": n, "batch": list(batch), "family": family, "kappa": kappa, "lmax": lmax, "vs": vs}
     if psd and n > 1 and draw(st.booleans()):
         spec["rank"] = draw(st.integers(1, n - 1))
